@@ -11,6 +11,7 @@ cache-free machine `Ref`) are in `Spec/Kern.lean`, helper lemmas in `Lemmas/Kern
 `Ref.find c p d` is `lookupKerningValue` run on tables computed from the groups as they are now.
 -/
 import DefconModel.Lemmas.Kern
+import DefconModel.Gen.KernTables
 
 namespace DefconModel.Props.C19
 open DefconModel DefconModel.Kern
@@ -257,15 +258,32 @@ theorem reload_refused (s : State) (hl : s.c.loaded = true) (hp : s.c.hasPath = 
     step s .reloadGroups = (s, .err "UFOLibError") := by
   simp [step, hl, stepLoaded, hp, hr]
 
+/-! ## 4. Obligations over the regenerated registration tables (`Gen/KernTables.lean`)
+
+`decide` over the complete table extracted from the source on every run: the model's `evict`
+(every group edit that posts `Groups.Changed` destroys all four tables; nothing else does; kerning
+edits destroy nothing) is what the class-level registration data says. -/
+
+/-- the four tables the model caches are registered on `Groups`, each with the factory the model ports -/
+theorem gen_four_tables_registered :
+    ∀ p ∈ [("defcon.groups.kerningSide1Groups", "kerningSide1GroupsRepresentationFactory"),
+           ("defcon.groups.kerningSide2Groups", "kerningSide2GroupsRepresentationFactory"),
+           ("defcon.groups.kerningGlyphToSide1Group", "glyphToKerningSide1GroupsRepresentationFactory"),
+           ("defcon.groups.kerningGlyphToSide2Group", "glyphToKerningSide2GroupsRepresentationFactory")],
+      p ∈ Gen.KernTables.groupsFactories.map (fun e => (e.1, e.2.1)) := by decide
+
+/-- every table registered on `Groups` is destroyed by the change notification and by no other
+notification a `Groups` object posts (whether the source writes a string or a collection); the change
+notification is `Groups.Changed`; `Kerning` registers no representation -/
+theorem gen_eviction_as_modelled :
+    (∀ e ∈ Gen.KernTables.groupsFactories, ∀ n ∈ Gen.KernTables.groupsPosts,
+        destroys e.2.2 n = decide (n = "Groups.Changed")) ∧
+    Gen.KernTables.groupsPosts.head? = some "Groups.Changed" ∧
+    Gen.KernTables.kerningFactories = [] := by decide
+
 /-! ## Non-vacuity -/
 
-def gEx : GroupsD :=
-  [("public.kern1.O", ["O", "D", "Q"]), ("public.kern2.E", ["E", "F"]), ("other", ["O", "E"]),
-   ("public.kern2.O", ["O"])]
-
-def kEx : KernD :=
-  [(("public.kern1.O", "public.kern2.E"), -100), (("public.kern1.O", "F"), -200), (("D", "F"), -300),
-   (("Q", "public.kern2.E"), -50)]
+/-! `gEx`, `kEx`: the example font of `Spec/Kern.lean` (ufoLib's doctest data plus an exception pair). -/
 
 /-- the hypotheses of `find_eq_spec` are met by groups with both sides populated -/
 example : (AL.keys gEx).Nodup ∧ ValidGroups gEx :=
